@@ -23,6 +23,9 @@ class Ctx:
     pass
 
 
+QUICK_DEEP = {"C02", "C03", "C04", "C05", "C06", "C07", "C10", "C11", "C14", "C15", "C16", "C17", "C18", "C19"}
+
+
 def main():
     ap = argparse.ArgumentParser()
     ap.add_argument("prop")
@@ -40,7 +43,10 @@ def main():
     ctx = Ctx()
     ctx.prop, ctx.tier, ctx.seed = prop, args.tier, seed
     ctx.rng = random.Random(seed * 7919 + int(prop[1:]))
-    ctx.thorough = args.tier == "thorough"
+    # depth of the differential step: harnesses size their suites by ctx.thorough.  Properties whose deep suites
+    # cost under a minute use them in the quick tier as well (QUICK_DEEP); the thorough tier adds leanchecker
+    # and repeats the sampled suites under further seeds (EXTRA_SEEDS).
+    ctx.thorough = args.tier == "thorough" or (prop in QUICK_DEEP and not os.environ.get("VERIF_SHALLOW"))
     ctx.t0 = time.time()
 
     if args.replay:
@@ -134,7 +140,7 @@ def main():
         hits = common.grep_forbidden(MODS + [exe_roots[e] for e in mod.EXES if e in exe_roots])
         if hits:
             broken.append("forbidden words in Lean sources: " + "; ".join(hits[:5]))
-        if ctx.thorough:
+        if args.tier == "thorough":
             okc, outc = common.leanchecker(MODS)
             if not okc:
                 broken.append("leanchecker rejected %s: %s" % (mod.MODULE, outc[-500:]))
